@@ -139,6 +139,15 @@ def _hypot(a, b, where):
     return sp.sqrt(a * a + b * b)
 
 
+_NOT_A_CONDITION = object()
+_COMPARE_UFUNCS = {"less": ast.Lt, "less_equal": ast.LtE, "greater": ast.Gt, "greater_equal": ast.GtE, "equal": ast.Eq, "not_equal": ast.NotEq}
+
+
+class _FlatIndex(symx.Mask):
+    """the index *array* numpy.flatnonzero(cond) (numpy.nonzero / one-argument numpy.where give a *tuple* of index arrays): used as a
+    subscript it selects the same elements, but it must not be tuple-unpacked"""
+
+
 class _Env(symx.Env):
     """symx.Env plus
       * numpy.hypot / math.hypot (sqrt(x1**2 + x2**2), element by element);
@@ -196,6 +205,9 @@ class _Env(symx.Env):
             if out is not None:
                 self.assign(out, r, c)
             return r
+        r = self._condition_idiom(c)
+        if r is not _NOT_A_CONDITION:
+            return r
         w = kwarg(c, "where")
         if w is not None and _np_full(self, f):
             return self._masked_ufunc(c, w)
@@ -228,6 +240,67 @@ class _Env(symx.Env):
                     and not any(isinstance(a, ast.Starred) for a in c.args) and all(k.arg for k in c.keywords):
                 return self._call_varargs(c, tgt)
         return super().call(c, stmt_level)
+
+    def _condition_idiom(self, c):
+        """the everyday numpy spellings of an element-wise condition and of the set of elements it selects, as the evaluator's Mask (the
+        abstraction `x[w] op= v`  ==  Piecewise((x op v, cond), (x, True)) is the same whichever spelling produced w):
+          * numpy.less / less_equal / greater / greater_equal / equal / not_equal (a, b)            ==  a < b, ...
+          * numpy.logical_and / logical_or / bitwise_and / bitwise_or (m1, m2), numpy.logical_not / invert / bitwise_not (m)  ==  m1 & m2, ~m
+          * numpy.nonzero(m), m.nonzero()            ==  numpy.where(m)  (documented: where(cond) is nonzero(cond)): a tuple of index arrays
+          * numpy.flatnonzero(m)                     ==  numpy.nonzero(numpy.ravel(m))[0]: the index array itself (never unpacked)
+        Returns _NOT_A_CONDITION when the call is none of these (or carries out=/where=/other keywords, which are left to the other cases)."""
+        f = c.func
+        nm = call_name(c)
+        if c.keywords or any(isinstance(a, ast.Starred) for a in c.args):
+            return _NOT_A_CONDITION
+        if isinstance(f, ast.Attribute) and f.attr == "nonzero" and not c.args and _np_full(self, f) is None:
+            try:
+                m = self.ev(f.value)
+            except symx.Unsupported:
+                return _NOT_A_CONDITION
+            if isinstance(m, symx.Mask):
+                return symx.Mask(m.cond)
+            if m is True or m is False:
+                return symx.Mask(sp.true if m else sp.false)
+            return _NOT_A_CONDITION
+        full = _np_full(self, f)
+        if not full or not full.startswith("numpy.") or full != "numpy." + nm:
+            return _NOT_A_CONDITION
+        if nm in _COMPARE_UFUNCS and len(c.args) == 2:
+            return self.compare(ast.copy_location(ast.Compare(left=c.args[0], ops=[_COMPARE_UFUNCS[nm]()], comparators=[c.args[1]]), c))
+        if nm in ("logical_and", "logical_or", "bitwise_and", "bitwise_or") and len(c.args) == 2:
+            a, b = self.ev(c.args[0]), self.ev(c.args[1])
+            both = [x for x in (a, b) if isinstance(x, symx.Mask)]
+            if len(both) == 2:
+                return symx.Mask((sp.And if nm.endswith("and") else sp.Or)(a.cond, b.cond))
+            if both and any(x is True or x is False for x in (a, b)):
+                k = a if not isinstance(a, symx.Mask) else b
+                if nm.endswith("and"):
+                    return symx.Mask(both[0].cond) if k else False
+                return True if k else symx.Mask(both[0].cond)
+            raise symx.Unsupported("symx: `%s` of values that are not conditions at %s" % (nm, self.where(c)))
+        if nm in ("logical_not", "invert", "bitwise_not") and len(c.args) == 1:
+            m = self.ev(c.args[0])
+            if isinstance(m, symx.Mask):
+                return symx.Mask(sp.Not(m.cond))
+            if m is True or m is False:
+                return not m
+            raise symx.Unsupported("symx: `%s` of a value that is not a condition at %s" % (nm, self.where(c)))
+        if nm in ("nonzero", "flatnonzero") and len(c.args) == 1:
+            m = self.ev(c.args[0])
+            cls = _FlatIndex if nm == "flatnonzero" else symx.Mask
+            if isinstance(m, symx.Mask):
+                return cls(m.cond)
+            if m is True or m is False:
+                return cls(sp.true if m else sp.false)
+            raise symx.Unsupported("symx: %s() of non-condition at %s" % (nm, self.where(c)))
+        return _NOT_A_CONDITION
+
+    def assign(self, t, v, st):
+        if isinstance(t, (ast.Tuple, ast.List)) and isinstance(v, _FlatIndex):
+            # (w,) = numpy.flatnonzero(cond) unpacks the *elements* of the index array (an error unless exactly one is selected)
+            raise symx.Unsupported("symx: cannot unpack the index array of flatnonzero() into %s at %s" % (norm(t), self.where(st)))
+        return super().assign(t, v, st)
 
     def _masked_ufunc(self, c, w):
         nm = call_name(c)
